@@ -106,8 +106,9 @@ def run(tier, seed, build):
                 shutil.copy(os.path.join(root, "ref.save"), os.path.join(root, nm + ".save")); shutil.copy(os.path.join(root, "ref.mfe"), os.path.join(root, nm + ".mfe"))
             for k in range(n):
                 # the first two commands of a batch (they run under strace): a files run with a dotted temp name, a finish with default names
-                kind = "files" if k == 0 else "finish_default" if k == 1 else rng.choice(["compile", "compile", "files", "files", "finish", "design", "finish_default"])
-                tn = "run.%d" % k if k == 0 else rng.choice(["tmp%d" % k, "run.%d" % k, "run.%d" % k, "scr%d" % k])
+                kind = "files" if k in (0, 2, 3) else "finish_default" if k == 1 else rng.choice(["compile", "compile", "files", "files", "finish", "design", "finish_default"])
+                # the third and fourth commands: files runs whose temp names differ only in a blank / an underscore
+                tn = "run.%d" % k if k == 0 else "pad 1" if k == 2 else "pad_1" if k == 3 else rng.choice(["tmp%d" % k, "run.%d" % k, "run.%d" % k, "scr%d" % k])
                 if "." in tn: dist["dotted_tempnames"] += 1
                 if kind == "compile":
                     des = rng.random() < 0.3
@@ -172,7 +173,7 @@ def run(tier, seed, build):
     finally:
         shutil.rmtree(wd, ignore_errors=True)
     return {"evaluations": dist["processes_concurrent"] + dist["strace_runs"], "distinct_nontrivial": max(len(nontrivial), 0),
-            "rule": "batches of 2-8 command-line runs (pepper-compiler pil/des with distinct --output/--save, pepper-design-spurious --just-files and full designs with distinct -t names incl. dotted ones like run.1 / run.2, pepper-finish with distinct --seqs/--strands, and pepper-finish BASENAME with default file names for dotted base names v.1, v.2 next to a run named v) on one generated system: started simultaneously in one directory and one after another in a copy, all files compared byte for byte (timestamp line and the random design outputs excluded); the first three commands of each batch also run under strace and their modified paths compared with the generated footprint. Non-trivial = batch",
+            "rule": "batches of 2-8 command-line runs (pepper-compiler pil/des with distinct --output/--save, pepper-design-spurious --just-files and full designs with distinct -t names incl. dotted ones like run.1 / run.2 and a pair differing only in a blank / an underscore, pepper-finish with distinct --seqs/--strands, and pepper-finish BASENAME with default file names for dotted base names v.1, v.2 next to a run named v) on one generated system: started simultaneously in one directory and one after another in a copy, all files compared byte for byte (timestamp line and the random design outputs excluded); the first three commands of each batch also run under strace and their modified paths compared with the generated footprint. Non-trivial = batch",
             "samples": samples, "distribution": dist, "failures": failures, "gen_needed": ["Conc/FootprintGen.v"]}
 
 def replay(path):
